@@ -1,31 +1,186 @@
 (* Properties/C02.v - Response fidelity: the caller gets exactly the response the server
-   produced.  Only statements; every proof is a lemma of Proofs/*. *)
-From ReqV Require Import Lib.Bytes Model.H1Resp Model.H1Render Model.RespRender
-  Proofs.RespRenderProofs.
+   produced.  Only statements; every proof is a lemma of Proofs/*.  Theorems that were proved
+   inside a Section are restated through the type of the lemma ([Check] prints the full
+   statement, with the Section hypotheses as premises, into the build log). *)
+From ReqV Require Import Lib.Bytes Model.H1Resp Model.H1Render Model.RespRender Model.StreamBody
+  Model.RespAPI Model.H1Client Model.MuxResp
+  Proofs.RespRenderProofs Proofs.H1RoundTrip Proofs.RespAPIProofs Proofs.MuxRespProofs Proofs.CrossProto.
 
-(* HTTP/1.1 header section: for EVERY list of well-formed fields (token names in any case,
-   values of VCHAR / SP / HTAB / obs-text without blanks at the edges, any optional
-   whitespace around the value on the wire) and every continuation [rest] of the stream,
-   the header reader returns exactly the multimap of those fields and [rest] untouched. *)
+(* ---------- HTTP/1.1: parse (render x) = x ---------- *)
+
+(* header section: EVERY list of well-formed fields (token names in any case, values of VCHAR /
+   SP / HTAB / obs-text, any optional whitespace around the value) and every continuation
+   [rest] of the stream: exactly the multimap of those fields, and [rest] untouched *)
 Theorem C02_mime_header_round_trip : forall bufsize fs rest,
   Forall (fun x => wfield_ok x = true) fs ->
-  read_mime_header bufsize (render_wfields fs ++ CRLF ++ rest) =
+  read_mime_header bufsize (render_wfields fs ++ H1Render.CRLF ++ rest) =
     inr (collect (map field_of fs), rest).
 Proof. exact mime_header_round_trip. Qed.
 Print Assumptions C02_mime_header_round_trip.
 
-(* what "the multimap of those fields" means: under every key, the values of the fields
-   whose name canonicalises to that key, in emission order; nothing else *)
+(* "the multimap of those fields": under every key the values of the fields whose name
+   canonicalises to that key, in emission order; nothing else *)
 Theorem C02_header_values_per_name : forall k fs,
   hget k (collect fs) = match values_of k fs with [] => None | vs => Some vs end.
 Proof. exact hget_collect. Qed.
 Print Assumptions C02_header_values_per_name.
+
+(* status line, every three-digit code *)
+Theorem C02_status_line_round_trip : forall code reason, (100 <= code <= 999)%Z ->
+  parse_status_line (status_line_text code reason) =
+    inr {| sl_proto := H11; sl_status := status_text code reason; sl_code := code;
+           sl_major := 1; sl_minor := 1 |}.
+Proof. exact parse_status_line_round_trip. Qed.
+Print Assumptions C02_status_line_round_trip.
+
+(* h1_parse_render, declared length: status, header multimap (framing fields anywhere in the
+   section; "Connection: close" consumed), ContentLength, body = exactly the declared bytes,
+   rest untouched *)
+Theorem C02_h1_parse_render_content_length : ltac:(let t := type of h1_cl_round_trip in exact t).
+Proof. exact h1_cl_round_trip. Qed.
+Check h1_cl_round_trip.
+Print Assumptions C02_h1_parse_render_content_length.
+
+(* h1_parse_render, chunked: EVERY partition into non-empty chunks, any spelling of the size
+   lines (leading zeros, hex case, extensions), trailer section with any fields: body = the
+   concatenation, Trailer = announced keys + the trailer fields sent, rest untouched *)
+Theorem C02_h1_parse_render_chunked : ltac:(let t := type of h1_chunked_round_trip in exact t).
+Proof. exact h1_chunked_round_trip. Qed.
+Check h1_chunked_round_trip.
+Print Assumptions C02_h1_parse_render_chunked.
+
+(* h1_parse_render, until close: everything after the head is the body *)
+Theorem C02_h1_parse_render_until_close : ltac:(let t := type of h1_close_round_trip in exact t).
+Proof. exact h1_close_round_trip. Qed.
+Check h1_close_round_trip.
+Print Assumptions C02_h1_parse_render_until_close.
+
+(* HEAD / 1xx / 204 / 304: no body is read, whatever Content-Length says; rest untouched *)
+Theorem C02_h1_no_body_by_rule : ltac:(let t := type of h1_nobody_round_trip in exact t).
+Proof. exact h1_nobody_round_trip. Qed.
+Check h1_nobody_round_trip.
+Print Assumptions C02_h1_no_body_by_rule.
+
+Theorem C02_h1_trailer_round_trip : forall bufsize tfs rest,
+  fields_ok tfs -> trailer_fits bufsize tfs ->
+  H1Resp.read_trailer bufsize (render_wfields tfs ++ H1Render.CRLF ++ rest) = inr (collect (map field_of tfs), rest).
+Proof. exact read_trailer_round_trip. Qed.
+Print Assumptions C02_h1_trailer_round_trip.
+
+(* up to five informational responses (100-continue, 103 early hints, ...) in front of the
+   final response change nothing *)
+Theorem C02_interim_responses_skipped : forall meth ims w r rest,
+  Forall interim_ok ims -> length ims <= max_1xx ->
+  read_response_head meth br_size w = inr (r, rest) -> is_1xx_nonterminal (r_code r) = false ->
+  read_final_response meth (render_interims ims ++ w) = FinOk r rest.
+Proof. exact final_after_interims. Qed.
+Print Assumptions C02_interim_responses_skipped.
+
+(* the exchange as the caller sees it: final response + body through the chosen read mode *)
+Theorem C02_h1_delivery : forall meth m sizes ims w r b,
+  Forall interim_ok ims -> length ims <= max_1xx ->
+  parse_response meth br_size w = Accepted r b -> is_1xx_nonterminal (r_code r) = false ->
+  h1_exchange meth m sizes (render_interims ims ++ w) =
+    Some {| d_resp := r; d_body := b; d_api := run_mode m (r_code r) sizes (body_reader b) |}.
+Proof. exact h1_delivery. Qed.
+Print Assumptions C02_h1_delivery.
+
+(* ---------- HTTP/2, HTTP/3 ---------- *)
+
+(* h2_body_concat: EVERY partition into DATA frames, ANY padding, declared length or not *)
+Theorem C02_h2_body_concat : forall fs last cl,
+  open_frames fs -> fd_end last = true ->
+  (cl = None \/ cl = Some (N.of_nat (length (payload (fs ++ [last]))))) ->
+  h2_read cl false (h2_events (fs ++ [last]) false) = (payload (fs ++ [last]), H2Clean).
+Proof. exact h2_body_concat. Qed.
+Print Assumptions C02_h2_body_concat.
+
+Theorem C02_h2_body_concat_trailers : forall fs cl,
+  open_frames fs -> (cl = None \/ cl = Some (N.of_nat (length (payload fs)))) ->
+  h2_read cl false (h2_events fs true) = (payload fs, H2Clean).
+Proof. exact h2_body_concat_trailers. Qed.
+Print Assumptions C02_h2_body_concat_trailers.
+
+(* h3_body_concat: EVERY partition into DATA frames (empty ones included) then FIN *)
+Theorem C02_h3_body_concat : forall parts rem,
+  (rem = None \/ rem = Some (N.of_nat (length (concat parts)))) ->
+  h3_read true rem (h3_events parts) = (concat parts, H3Clean).
+Proof. exact h3_body_concat. Qed.
+Print Assumptions C02_h3_body_concat.
+
+(* lower-case names on the wire, the same canonical multimap for the caller *)
+Theorem C02_h2_header_collect : forall fs,
+  token_names fs -> none_named K_TRAILER fs -> h2_header (lower_fields fs) = (collect fs, []).
+Proof. exact h2_header_collect. Qed.
+Print Assumptions C02_h2_header_collect.
+
+Theorem C02_h3_header_collect : forall fs,
+  token_names fs -> none_named K_CL fs -> none_named K_TRAILER fs ->
+  h3_header (lower_fields fs) = Some (collect fs, [], (-1)%Z).
+Proof. exact h3_header_collect. Qed.
+Print Assumptions C02_h3_header_collect.
+
+Theorem C02_trailer_fields_collect : forall fs, token_names fs -> add_all (lower_fields fs) = collect fs.
+Proof. exact add_all_collect. Qed.
+Print Assumptions C02_trailer_fields_collect.
+
+(* cross_protocol_response: one abstract response (any status with a body, any end-to-end
+   fields, any body), sent chunked over HTTP/1.1 (any partition), as DATA frames over HTTP/2
+   (any partition, any padding) and HTTP/3 (any partition): the caller obtains the same
+   status, the same header multimap [collect (a_fields a)], the same body through the same
+   read mode, on all three *)
+Theorem C02_cross_protocol_h1 : ltac:(let t := type of h1_view in exact t).
+Proof. exact h1_view. Qed.
+Check h1_view.
+Print Assumptions C02_cross_protocol_h1.
+Theorem C02_cross_protocol_h2 : ltac:(let t := type of h2_view in exact t).
+Proof. exact h2_view. Qed.
+Check h2_view.
+Print Assumptions C02_cross_protocol_h2.
+Theorem C02_cross_protocol_h3 : ltac:(let t := type of h3_view in exact t).
+Proof. exact h3_view. Qed.
+Check h3_view.
+Print Assumptions C02_cross_protocol_h3.
+
+(* ---------- read modes ---------- *)
+
+(* a Read loop with EVERY schedule of positive buffer sizes returns the content, then the
+   terminal condition *)
+Theorem C02_reads_concat : forall sizes r,
+  positive_sizes sizes -> length (rd_rem r) < length sizes ->
+  drain sizes r = (rd_rem r, Some (rd_end r), exhausted r).
+Proof. exact drain_all. Qed.
+Print Assumptions C02_reads_concat.
+
+(* read_modes_agree: auto-read Bytes() = restored Body streamed with any positive sizes =
+   ToBytes again = DisableAutoReadResponse + streaming = ToBytes (twice) = bytes copied to the
+   output writer / file *)
+Theorem C02_read_modes_agree : ltac:(let t := type of read_modes_agree in exact t).
+Proof. exact read_modes_agree. Qed.
+Check read_modes_agree.
+Print Assumptions C02_read_modes_agree.
+
+(* a body stream that fails after d: every mode reports the failure and delivers exactly d *)
+Theorem C02_failure_surfaces_in_every_mode : ltac:(let t := type of failure_surfaces_in_every_mode in exact t).
+Proof. exact failure_surfaces_in_every_mode. Qed.
+Check failure_surfaces_in_every_mode.
+Print Assumptions C02_failure_surfaces_in_every_mode.
 
 Example C02_nonvacuous :
   let fs := [ {| wf_name := bs "set-cookie"; wf_pre := bs " "; wf_value := bs "a=1"; wf_post := [] |};
               {| wf_name := bs "X-Empty"; wf_pre := []; wf_value := []; wf_post := bs "  " |};
               {| wf_name := bs "SET-COOKIE"; wf_pre := [x09]; wf_value := bs "b=2; Path=/"; wf_post := bs " " |} ] in
   Forall (fun x => wfield_ok x = true) fs /\
-  read_mime_header 4096 (render_wfields fs ++ CRLF ++ bs "body") =
-    inr ([(bs "Set-Cookie", [bs "a=1"; bs "b=2; Path=/"]); (bs "X-Empty", [[]])], bs "body").
-Proof. split; [repeat constructor|vm_compute; reflexivity]. Qed.
+  read_mime_header 4096 (render_wfields fs ++ H1Render.CRLF ++ bs "body") =
+    inr ([(bs "Set-Cookie", [bs "a=1"; bs "b=2; Path=/"]); (bs "X-Empty", [[]])], bs "body") /\
+  (* a whole exchange: 103 early hints, then a chunked 200 with a trailer, auto-read *)
+  let w := bs "HTTP/1.1 103 Early Hints" ++ H1Render.CRLF ++ bs "Link: </s.css>" ++ H1Render.CRLF ++ H1Render.CRLF ++
+           bs "HTTP/1.1 200 OK" ++ H1Render.CRLF ++ bs "transfer-encoding: chunked" ++ H1Render.CRLF ++ H1Render.CRLF ++
+           bs "3;x=y" ++ H1Render.CRLF ++ bs "abc" ++ H1Render.CRLF ++ bs "02" ++ H1Render.CRLF ++ bs "de" ++ H1Render.CRLF ++
+           bs "0" ++ H1Render.CRLF ++ bs "x-sum: 5" ++ H1Render.CRLF ++ H1Render.CRLF in
+  match h1_exchange (bs "GET") MAuto [2; 2; 2; 2] w with
+  | Some d => r_code (d_resp d) = 200%Z /\ o_bytes (d_api d) = Some (bs "abcde") /\
+              o_stream (d_api d) = bs "abcde" /\ b_trailer (d_body d) = [(bs "X-Sum", [bs "5"])]
+  | None => False
+  end.
+Proof. split; [repeat constructor|]. split; vm_compute; repeat split; reflexivity. Qed.
